@@ -20,6 +20,9 @@ type C06Params struct {
 	Sched SchedSpec `json:"sched"`
 	Img   ImgSpec   `json:"img"`
 	Opt   OptSpec   `json:"opt"`
+	// Prior: an earlier lossy encode in the same world with the same macroblock grid,
+	// so that the checked encode runs on a reused (pooled) encoder
+	Prior *Op `json:"prior,omitempty"`
 }
 
 type propC06 struct{}
@@ -54,6 +57,24 @@ func (propC06) Gen(seed uint64, tier string, idx int) any {
 	case "paletted", "nrgba64":
 		p.Img.Type = "nrgba"
 	}
+	if r.Pct(30) {
+		op := Op{Kind: "enc", Img: GenImgSpec(r, 1, 80, 1), Opt: GenLossyOpts(r, 0, false)}
+		op.Img.W = (p.Img.W+15)/16*16 - r.Intn(16)
+		op.Img.H = (p.Img.H+15)/16*16 - r.Intn(16)
+		if op.Img.W < 1 {
+			op.Img.W = 1
+		}
+		if op.Img.H < 1 {
+			op.Img.H = 1
+		}
+		switch op.Img.Type {
+		case "paletted", "nrgba64":
+			op.Img.Type = "nrgba"
+		}
+		p.Prior = &op
+		p.Sched.PoolHitPct = 100
+		p.Sched.RandomPools = true
+	}
 	return p
 }
 
@@ -65,7 +86,10 @@ func (propC06) Shrink(pp any) []any {
 		f(&q)
 		out = append(out, &q)
 	}
-	if p.Sched.Policy != vsim.PolCanonical || p.Sched.PoolHitPct != 0 {
+	if p.Prior != nil {
+		add(func(q *C06Params) { q.Prior = nil })
+	}
+	if p.Prior == nil && (p.Sched.Policy != vsim.PolCanonical || p.Sched.PoolHitPct != 0) {
 		add(func(q *C06Params) {
 			q.Sched.Policy = vsim.PolCanonical
 			q.Sched.PoolHitPct, q.Sched.PoolDropPm, q.Sched.PoolGCPm = 0, 0, 0
@@ -115,6 +139,10 @@ func (propC06) Execute(pp any, x *X) *Violation {
 			rc = recon{y, u, v, ys, uvs, mbW, mbH, rc.calls + 1}
 		}
 		defer func() { lossy.VerifOnFrame = nil }()
+		if p.Prior != nil {
+			ExecOp(*p.Prior, nil)
+			rc = recon{}
+		}
 		var buf bytes.Buffer
 		encErr = webp.Encode(&buf, img, p.Opt.ToOptions())
 		file = buf.Bytes()
